@@ -1436,25 +1436,20 @@ namespace igris
         //         push_back(a);
         // }
 
-        vector(const vector &other) : m_size(other.m_size)
+        // The constructors below delegate to the one above: the object is
+        // then complete, and if an element constructor throws, ~vector()
+        // destroys the elements built so far and releases the buffer.
+        vector(const vector &other) : vector()
         {
-            m_size = other.m_size;
-            if (other.m_size == 0)
+            reserve(other.m_size);
+            for (auto ip = other.m_data; ip != other.m_data + other.m_size;
+                 ip++)
             {
-                return;
-            }
-
-            m_data = m_alloc.allocate(m_size);
-            m_capacity = m_size;
-            for (auto ip = other.m_data, op = m_data;
-                 ip != other.m_data + other.m_size;
-                 ip++, op++)
-            {
-                igris::constructor(op, *ip);
+                push_back(*ip);
             }
         }
 
-        template <class I, class O> vector(I first, O last)
+        template <class I, class O> vector(I first, O last) : vector()
         {
             if (first == last)
                 return;
@@ -1512,13 +1507,12 @@ namespace igris
             return *this;
         }
 
-        vector(size_t sz) : m_data(nullptr), m_capacity(0), m_size(0)
+        vector(size_t sz) : vector()
         {
             resize(sz);
         }
 
-        vector(iterator a, const iterator b)
-            : m_data(nullptr), m_capacity(0), m_size(0)
+        vector(iterator a, const iterator b) : vector()
         {
             while (a != b)
             {
